@@ -226,6 +226,38 @@ class Runner:
         for nm in got:
             if nm not in objs:
                 self.viol(sigfn(nm, "?", "unknown-member-returned"), f"calendar-query {descr}: returns {nm} which was not uploaded")
+        self.njudged = getattr(self, "njudged", 0) + 1
+        if self.njudged % 6 == 0:
+            self.judge_depth(colpath, flt, tzid, set(got), descr)
+
+    def judge_depth(self, colpath, flt, tzid, depth1, descr):
+        """the scope of the report is set by its Depth header (RFC 4791 7.8, RFC 3253 3.6): with `0`, or none, it is the
+        collection alone, which is not a calendar object resource, so no member is reported; `infinity` reaches the members
+        as `1` does (a calendar collection has no collections inside)."""
+        w, res = self.w, self.res
+        body = X.calendar_query(O.render(flt), data=True, extra=tz_xml(tzid))
+        for label, hdrs in (("0", [("Depth", "0"), X.XML_CT]), ("absent", [X.XML_CT]), ("infinity", [("Depth", "infinity"), X.XML_CT])):
+            s, r = w.call("report-depth-" + label, "REPORT", w.url(colpath), hdrs, body, record=False)
+            res.count("depth_variant_queries")
+            res.count("depth_variant:" + label)
+            if r.status != 207:
+                self.viol(f"depth/{label}/query-answers-{s.status}", f"calendar-query {descr} with Depth {label} answered {s.status}")
+                continue
+            try:
+                rs, _ = X.parse_multistatus(r.body)
+            except X.MalformedXML:
+                self.viol(f"depth/{label}/malformed-answer", f"calendar-query {descr} with Depth {label}: malformed multistatus")
+                continue
+            names = {w.rel_name(resp.href or "", colpath) for resp in rs} - {None, ""}
+            if label == "infinity":
+                if names != depth1:
+                    self.viol("depth/infinity/result-differs-from-depth-1", f"calendar-query {descr}: Depth infinity reports {sorted(names)!r}, Depth 1 {sorted(depth1)!r}")
+            elif names:
+                if depth1:
+                    res.count("depth0_queries_whose_depth1_answer_has_members")
+                self.viol(f"depth/{label}/members-reported-outside-the-scope-of-the-report", f"calendar-query {descr} with Depth {label}: members {sorted(names)[:5]!r} reported although the scope is the collection alone")
+            elif depth1:
+                res.count("depth0_queries_whose_depth1_answer_has_members")
 
 
 def relation(s, e, pts):
@@ -483,7 +515,8 @@ def check(tier, seed, t0):
     k = 1 if not th else 8
     guards = [("queries", c.get("queries", 0), 2500 * (1 if not th else 4)), ("(object, query) judgements", c.get("judgements", 0), 90000 * (1 if not th else 4)),
               ("expected matches", c.get("expected_match", 0), 5000 * k), ("expected non-matches", c.get("expected_nomatch", 0), 5000 * k),
-              ("calendar-data comparisons", c.get("calendar_data_compared", 0), 3000 * k), ("reports with expanded recurrences between the filter queries (answered 207)", c.get("expand_report_status:207", 0), 50)]
+              ("calendar-data comparisons", c.get("calendar_data_compared", 0), 3000 * k), ("reports with expanded recurrences between the filter queries (answered 207)", c.get("expand_report_status:207", 0), 50),
+              ("queries repeated with Depth 0 / no Depth whose Depth-1 answer has members", c.get("depth0_queries_whose_depth1_answer_has_members", 0), 200)]
     rows = sorted({lab.rsplit("/", 1)[0] for (lab, _, _, _) in row_objects()})
     for r in rows:
         if r not in ("VFREEBUSY/none", "VJOURNAL/none"):      # FALSE by definition
